@@ -235,6 +235,12 @@ func gridMethod() []group {
 	ps := []int{1, 2, 3, 5, 15, 16, 17, 308, 309, 1000, 0, 1001, -1}
 	ss := []int{-1000, -309, -308, -2, -1, 0, 1, 2, 15, 308, 309, 1000, 1001, -1001}
 	dvals := []any{float64(0), float64(1), float64(100), float64(123.456), float64(99.99), float64(99.999), float64(-5.5), float64(1e20), float64(1e-7), json.Number("12345.678"), "77.7", int64(42)}
+	// scales at which value * 10^scale leaves the float64 range (the value has no digits there: unchanged)
+	for _, v := range []any{1e300, 1e10, 12345.5, float64(2), -1.75, 1e-300, float64(0), 5e-324, json.Number("1e300"), int64(9007199254740993), "1.5e200"} {
+		for _, ps := range [][2]int{{1000, 10}, {1000, 300}, {400, 308}, {1000, 308}, {1000, 307}, {10, -300}, {1000, -308}, {1000, 52}, {1000, 53}} {
+			gs = append(gs, group{fmt.Sprintf("$.decimal(%d,%d)", ps[0], ps[1]), v, nil})
+		}
+	}
 	for _, p := range ps {
 		for _, v := range dvals {
 			gs = append(gs, group{fmt.Sprintf("$.decimal(%d)", p), v, nil})
